@@ -152,7 +152,7 @@ class C15(Check):
     world = 'twin'
     level = 'exploration'
     design_ref = 'DESIGN.md 3.9'
-    runs = {'quick': 1200, 'thorough': 40000}
+    runs = {'quick': 1200, 'thorough': 20000}
     shrink_lists = (('ops',), ('config', 'stack'))
     hashseeds = {'quick': [1], 'thorough': [1, 2]}
     rule = ('a scenario application producing every response kind (Response small/large/compressible/random/empty/streamed, '
